@@ -248,6 +248,27 @@ def tiny_domains(max_size, values=((1, 1), (1, 2), (2, 1), (2, 2))):
             yield tuple((("p", p), ("q", q)) for p, q in combo)
 
 
+def eval_after_abandoned(q, world, inst, mode="query", predeclare=(), take=1):
+    """build, take `take` results of a first evaluation and close it, then evaluate fully: sorted (row labels, count)"""
+    try:
+        obj, b = Q.build(q, world, inst, mode=mode, predeclare=predeclare)
+    except Exception as e:
+        return exc_obs(e)
+    sel = b.sel[q]
+    try:
+        it = obj.evaluate()
+        for _ in range(take):
+            next(it, None)
+        it.close()
+        if q[2] == "entity":
+            rows = [(r,) for r in obj.evaluate()]
+        else:
+            rows = [tuple(r[s] for s in sel) for r in obj.evaluate()]
+        return row_labels(rows)
+    except Exception as e:
+        return exc_obs(e)
+
+
 def eval_twice(q, world, inst, mode="query", predeclare=()):
     """build once, evaluate the same query object twice; each observation is a sorted list of (row labels, count)"""
     try:
